@@ -117,7 +117,7 @@ class AffineTransformation(darsia.BaseTransformation):
 
                     self.rotation = np.matmul(self.rotation, rotation_matrix)
                     self.rotation_inv = np.matmul(
-                        self.rotation_inv, rotation_matrix_inv
+                        rotation_matrix_inv, self.rotation_inv
                     )
 
     def set_parameters_as_vector(self, parameters: np.ndarray) -> None:
